@@ -48,7 +48,9 @@ def seq_case(item):
                 if not t.apply(["next"]):
                     break
             base = float(root.value)
-            before = T.snapshot(t)
+            # (noread: nothing but the root's value is read before the algo - a dormant security is not
+            # woken up by the harness)
+            before = {} if spec.get("noread") else T.snapshot(t)
             if move in ("flow+", "flow-"):
                 # capital booked earlier in the same bar (e.g. CapitalFlow), nothing read in between
                 amt = 128.0 if move == "flow+" else -64.0
@@ -60,7 +62,7 @@ def seq_case(item):
                 if fee is None and spread is None:
                     kid = "a" if spec["shape"] == "T1c" else "b"
                     t.apply(["transact", [], kid, 2.0])
-            scale = max(abs(base), T.gross(t))
+            scale = max(abs(base), float(spec.get("capital", 0.0))) if spec.get("noread") else max(abs(base), T.gross(t))
             temp = {"weights": dict(tw)}
             if cash is not None:
                 temp["cash"] = cash
@@ -217,6 +219,7 @@ def configs(tier, seed):
         if len(p) > 6 and p[6] == "idle":
             # 'a' was held, closed by an earlier Rebalance and has been idle for a date while its price moved
             spec["ndates"] = 6
+            spec["noread"] = True
             spec["preops"] = [["algos", [], {"weights": {"a": 0.5}}, "Rebalance"], ["next"], ["algos", [], {"weights": {"b": 0.5}}, "Rebalance"], ["next"]]
         if shape == "T2":
             # the sub-strategies hold positions of their own when the parent starts rebalancing
